@@ -42,6 +42,8 @@ RULE_DOC = {
     'R26': '`io::Error::new(io::ErrorKind::InvalidData, "..")` -> `io_invalid_data()` (opaque io::Error; only Ok/Err is observed)',
     'R30': '`let V = E.iter().map(|r| F).sum();` -> `let mut V: usize = 0; for r in E.iter() { V += F; }` (Iterator::sum over usize: the additions become overflow obligations)',
     'R31': 'std::io::Cursor over a byte slice: `io::Cursor::new(B)` -> `ByteCursor::new(B)`, `u64::from_le_bytes(buf)` (buf: [u8; 8]) -> `le_u64_of(buf)`; ByteCursor::read_exact is ASSUMED to behave as Cursor<&[u8]>::read_exact (8 bytes copied and consumed, or Err with nothing consumed)',
+    'R32': '`for X in M.values_mut() {` -> `let keys__N = map_keys(&M); for i__N in 0..keys__N.len() { let k__ = keys__N[i__N]; let X = M.get_mut(&k__).unwrap();` - values_mut visits every entry once; map_keys (body: `m.keys().copied().collect()`) is ASSUMED to list every key exactly once',
+    'R33': '`M.retain(|_, X| P);` -> `let rkeys__N = map_keys(&M); for j__N in 0..rkeys__N.len() { let k__ = rkeys__N[j__N]; let keep__ = { let X = M.get(&k__).unwrap(); P }; if !keep__ { M.remove(&k__); } }` (std: retain removes exactly the entries for which the predicate is false; P verbatim, X bound immutably)',
     'R28': '`E.last().is_some_and(|c| P)` -> `match E.last() { Some(c) => P, None => false }` (definition of Option::is_some_and; P verbatim)',
     'R29': '`for P in X.drain(..) {` -> `let drained__ = drain_all(&mut X); for e__ in drained__ { let P = e__;` - drain_all is a helper whose body is `X.drain(..).collect()`; contract ASSUMED (std): it returns the old elements in order and leaves X empty',
     'R22': '`if let Some(&x) = E {` -> `if let Some(x__r) = E { let x = *x__r;` (definition of a reference pattern; Verus has no ref patterns)',
@@ -314,6 +316,25 @@ class Piece:
         self.resub('R31', r'io::Cursor::new\(', 'ByteCursor::new(')
         self.resub('R31', r'u64::from_le_bytes\((\w+)\)', r'le_u64_of(\1)')
         return self
+
+    def R32(self):
+        n = [0]
+        def rep(m):
+            n[0] += 1
+            i = n[0]
+            return ('%slet keys__%d = map_keys(&%s);\n%sfor i__%d in 0..keys__%d.len() { let k__ = keys__%d[i__%d]; let %s = %s.get_mut(&k__).unwrap();'
+                    % (m.group(1), i, m.group(3), m.group(1), i, i, i, i, m.group(2), m.group(3)))
+        return self.resub('R32', r'([ \t]*)for (\w+) in ([\w\.]+)\.values_mut\(\) \{', rep)
+
+    def R33(self):
+        n = [0]
+        def rep(m):
+            n[0] += 1
+            i = n[0]
+            ind = m.group(1)
+            return ('%slet rkeys__%d = map_keys(&%s);\n%sfor j__%d in 0..rkeys__%d.len() {\n%s    let k__ = rkeys__%d[j__%d];\n%s    let keep__ = { let %s = %s.get(&k__).unwrap(); %s };\n%s    if !keep__ { %s.remove(&k__); }\n%s}'
+                    % (ind, i, m.group(2), ind, i, i, ind, i, i, ind, m.group(3), m.group(2), m.group(4).strip(), ind, m.group(2), ind))
+        return self.resub('R33', r'([ \t]*)([\w\.]+)\.retain\(\|_, (\w+)\| ([^\n]+?)\);', rep)
 
     def R28(self):
         return self.resub_opt('R28', r'([\w\.]+)\.last\(\)\.is_some_and\(\|(\w+)\|\s*([^\n]+?)\);', lambda m: 'match %s.last() { Some(%s) => %s, None => false };' % (m.group(1), m.group(2), m.group(3)))
@@ -839,7 +860,13 @@ class Piece:
             add(bo, ctext)
         # -- loops
         loops = find_loops(text, code, bo, bc)
-        for n, lops in sorted(self.loop_ops.items()):
+        for n, lops in sorted(self.loop_ops.items(), key=lambda kv: str(kv[0])):
+            if isinstance(n, str):
+                # a loop named by a fragment of its header: optional-match - if the loop has disappeared there is nothing to annotate and the proof decides
+                hits = [k for k, lp in enumerate(loops) if n in text[lp[1]:lp[2]]]
+                if not hits:
+                    continue
+                n = hits[0]
             if n >= len(loops):
                 raise LostAnchor('loop #%d not found in %s (found %d loops)' % (n, self.label, len(loops)))
             kw, kw_pos, lbo, lbc, in_pos = loops[n]
